@@ -26,7 +26,7 @@ impl Family for C08Family {
             rule: "seeded histories of 3-30 assertions (WebAuthn and CTAP level, with and without PRF extension requests) interleaved over 1-4 credentials with and without counters, with harness edits setting a stored counter to 0, 1, 2^31-1, 2^31, 2^32-2, 2^32-1 between assertions, plus registrations with the counter option on and off. Even indexes: fault-free (strict model equality per credential); odd indexes: store errors, user denials and cancellations (every success must still be stored-before + 1 = reported = stored-after). The thorough tier runs both build profiles (overflow checks on and off). Non-trivial = at least one assertion with a counter-bearing credential succeeded; distinct = distinct sequence of (credential, counter class, outcome).",
             assumptions: &["single actor: concurrent counter races belong to C19"],
             real: &["Authenticator::get_assertion", "Authenticator::make_credential", "Client::{register,authenticate}", "AuthenticatorData counter encoding"],
-            stubs: &["executor", "SimStore seam + reference store", "SimUser", "seeded RNG behind the hook"],
+            stubs: &["executor", "SimStore seam + reference store (2 runs in 3; the shipped MemoryStore and Option<Passkey> in the others)", "SimUser", "seeded RNG behind the hook"],
             crash_isolated: false,
             fresh_thread: true,
         }
@@ -45,7 +45,13 @@ impl Family for C08Family {
         let wrap = *r.pick(&WRAPS);
         let mut store = gen_store_cfg(&mut r);
         store.capability = Capability::Full;
-        let mut c = ceremony(Backend::Ref, wrap, store);
+        // the counter rules do not depend on which store keeps the record: the shipped stores run too
+        let backend = match r.below(6) {
+            0 => Backend::Memory,
+            1 => Backend::Slot,
+            _ => Backend::Ref,
+        };
+        let mut c = ceremony(backend, wrap, store);
         c.rng_seed = r.next_u64();
         let n_creds = r.range(1, 4) as usize;
         c.prelude = gen_prelude(&mut r, n_creds, None);
@@ -100,7 +106,7 @@ impl Family for C08Family {
         let c = ceremony_of(scn);
         let rec = run_and_measure(c, stats);
         let mut j = Judge::new("C08", scn, &rec);
-        for p in ["silent_assertion_up_false", "assertion_at_counter_max", "assertion_at_counter_max_minus_1", "assertion_at_2_pow_31_boundary", "counterless_assertion", "registration_with_counter", "counter_edit_applied", "success_under_faults", "assertion_with_extension_request"] {
+        for p in ["silent_assertion_up_false", "assertion_at_counter_max", "assertion_at_counter_max_minus_1", "assertion_at_2_pow_31_boundary", "counterless_assertion", "registration_with_counter", "counter_edit_applied", "success_under_faults", "assertion_with_extension_request", "counter_assertion_on_shipped_store"] {
             stats.declare_probe(p);
         }
         if let Some(p) = &rec.panic {
@@ -247,6 +253,9 @@ impl Family for C08Family {
                         }
                         (Some(true), Some(b)) if b < u32::MAX => {
                             nontrivial = true;
+                            if c.backend != Backend::Ref {
+                                stats.probe("counter_assertion_on_shipped_store");
+                            }
                             if reported != b + 1 || after != Some(b + 1) {
                                 j.fail("counter-not-plus-one", format!("op a{}#{}: credential {} had counter {b}; the assertion reports {reported} and the store now holds {after:?} (expected {} for both)", o.actor, o.idx, hex(&sel.id), b + 1));
                             }
